@@ -9,6 +9,10 @@ CHECKS = {
    note="Trusted: TLC, the Json/IOUtils community modules, Go's string order matching IdOrder (asserted every run). Exhaustive only up to MaxLen over 3 IDs x 2 contents x 2 priorities; beyond that random.",
    tech="TLA+ model (Decls.tla) checked by TLC + trace validation of real WriteDeclarations calls (TraceDecls.tla)"),
 }
+CHECKS["C20"] = dict(cat="model_checking", design="DESIGN.md §4 C20, Appendix A.1",
+   text="TLC checks the Formatters state machine (one action per critical section / process boundary) exhaustively for 3 goroutines: cache accessed only under the lock, each tool probed at most once, formatter run once per request iff present, missing tool = no-op, failing run reported. The real generator.Formatters is then driven by concurrent goroutines with stand-in tools on PATH (all 81 tool configurations, free-running, with gated probes held inside the critical section, and following schedules produced by tlc -simulate); every recorded trace must be a behaviour of the spec (trace validation with inferred lock hand-over, all invariants evaluated in every state). The worker is built with -race; a reported data race is a violation.",
+   note="Trusted: TLC; the stand-in executables and O_APPEND log order; the Go race detector for memory-level races (TLA+ cannot see unsynchronised accesses). Exhaustive design-level scope: 3 goroutines, 2-3 tools, 1-2 requests each; real executions are sampled schedules, not all interleavings.",
+   tech="TLA+ model (Formatters.tla) checked by TLC + trace validation (TraceFormatters.tla) of real concurrent executions, schedules from tlc -simulate replayed through gates, Go race detector")
 NOT_APPLICABLE = {}
 ALL = ["C%02d" % i for i in range(1, 21)]
 
